@@ -83,6 +83,9 @@ OPS = {
     'bilinear': (['tt@M', 'ttm', 'tt@N'], lambda E, o, s: E.tt.bilinear_form(o[0], o[1], o[2])),
     'norm_tracked': (['any'], lambda E, o, s: _tracked_norm(E, o[0])),
     'ctor_clone_list': (['any'], lambda E, o, s: E.tt.TT(list(o[0].cores))),
+    'riem_projection': (['any', 'same'], lambda E, o, s: E.tt.manifold.riemannian_projection(o[0], o[1])),
+    'round_default': (['any'], lambda E, o, s: o[0].round()),
+    'norm_untracked': (['any'], lambda E, o, s: o[0].norm()),
     'numel': (['any'], lambda E, o, s: E.tt.numel(o[0])),
     'repr': (['any'], lambda E, o, s: repr(o[0])),
 }
